@@ -93,7 +93,7 @@ def close(a, b, tol):
     return bool(np.all(np.abs(a - b) <= tol * np.maximum(1.0, np.maximum(np.abs(a), np.abs(b)))))
 
 
-def replay_pair(real_pair, tol, box=None, hyp_real=None, extra_points=40, seed=0, names=None):
+def replay_pair(real_pair, tol, box=None, hyp_real=None, extra_points=400, seed=0, names=None):
     """replay of an equality: real_pair(point) -> (observed, required) computed with the real code.
     The prover's witness is tried first; if the real floats happen to agree there, a bounded number of
     further points of the box is tried (still a concrete failing input when one is found)."""
@@ -103,6 +103,7 @@ def replay_pair(real_pair, tol, box=None, hyp_real=None, extra_points=40, seed=0
         pts = [dict(w)] if (w and (not box or all(k_ in w for k_ in box))) else []
         rng = random.Random(seed)
         if box:
+            pts += be.boundary_points(box, random.Random(seed + 1))
             for _ in range(extra_points):
                 pts.append(be.sample_point(box, rng))
         first = None
